@@ -23,15 +23,57 @@
 using celma::common::ManagedThread;
 
 static std::atomic<int> g_built{0};
+static std::atomic<int> g_ctorDelayUs{0};   // mixed-signature soak: the constructor takes a moment (wide first-access window)
+// address of the k-th constructed object (k mod 64): identity of an object WITHOUT dereferencing it, for runs in which a
+// second construction may already have destroyed the object a thread was handed (the `!!` line instead of an ASan abort)
+static std::atomic<const void*> g_objAddr[64];
+static std::atomic<bool> g_doubleEntry{false};
+static int serialOfAddr(const void* p) {
+   int n = g_built.load();
+   for (int k = (n > 64 ? 64 : n) - 1; k >= 0; --k) if (g_objAddr[k].load() == p) return k;
+   return -1;
+}
 
-/// the singleton under test; `serial` is the identity of the object (its construction number)
+/// the singleton under test; `serial` is the identity of the object (its construction number).  The constructor has a
+/// parameter with a default, so that the object can be requested through several instantiations of the member template
+/// `Singleton<T>::instance< Args...>()`: `instance()` (Args = {}), `instance( 32)` (Args = {int}) and
+/// `instance( lvalue)` (Args = {int&}) -- three different functions, one object, one class-wide mutex.
 class Obj : public celma::common::Singleton<Obj> {
    friend class celma::common::Singleton<Obj>;
 public:
    int serial;
+   int size;
 protected:
-   Obj() : serial(g_built.fetch_add(1, std::memory_order_relaxed)) {}
+   explicit Obj(int sz = 16) : serial(g_built.fetch_add(1, std::memory_order_relaxed)), size(sz) {
+      g_objAddr[serial % 64].store(this);
+      if (int us = g_ctorDelayUs.load(std::memory_order_relaxed)) std::this_thread::sleep_for(std::chrono::microseconds(us));
+   }
 };
+
+/// the call signature ("sig") a thread uses for the first access: 0 `instance()`, 1 `instance( 32)`, 2 `instance( lvalue)`
+static const Obj& instanceBySig(int sig) {
+   int lvalue = 32;
+   switch (sig) {
+   case 1: return Obj::instance(32);
+   case 2: return Obj::instance(lvalue);
+   default: return Obj::instance();
+   }
+}
+
+static const char* sigName(int sig) { return sig == 1 ? "instance(32)" : sig == 2 ? "instance(lvalue)" : "instance()"; }
+
+/// `sig=<s0>,<s1>,...` (every entry 0..2, 1..64 entries); thread i uses entry i mod length
+static bool parseSigs(const std::string& tok, std::vector<int>& out) {
+   out.clear();
+   if (tok.compare(0, 4, "sig=") != 0) return false;
+   const std::string s = tok.substr(4);
+   if (s.empty() || s == "-") return false;
+   for (char c : s) if (!(std::isdigit(static_cast<unsigned char>(c)) || c == ',')) return false;
+   if (s.front() == ',' || s.back() == ',' || s.find(",,") != std::string::npos) return false;
+   try { for (size_t v : vh::natList(s)) { if (v > 2) return false; out.push_back(static_cast<int>(v)); } }
+   catch (...) { return false; }
+   return !out.empty() && out.size() <= 64;
+}
 
 #ifdef CELMA_VERIF
 // ============================================================================ forced schedules
@@ -160,9 +202,18 @@ static bool parseSched(const std::string& s, std::vector<int>& out) {
 
 // ---------------------------------------------------------------------------- singleton
 
-static std::string runSingleton(int n, const std::vector<int>& sched) {
+/// `sigs` empty: every thread calls `instance()` and the scheduler's own bookkeeping (from the lock / unlock sync points)
+/// says who holds the mutex.  `sigs` given (mixed call signatures): the bookkeeping is NOT trusted for the first thread that
+/// wants the mutex while another one is inside: it is really released into lock() and must not arrive at `read2` within
+/// PROBE_MS (the model: `blocked`).  It then sits in lock() ("pending") and gets the mutex when the holder unlocks; its
+/// next schedule entry is the model's `lock` step.  One pending thread at a time; while there is one, every other thread
+/// at `lock` is `blocked` by bookkeeping, also between the holder's unlock and the pending thread's `lock` entry (the real
+/// mutex is already taken then -- printed as `reserved`, the generated schedules avoid it).
+static std::string runSingleton(int n, const std::vector<int>& sched, const std::vector<int>& sigs = {}) {
+   constexpr int PROBE_MS = 80;
    Obj::reset();
    g_built = 0;
+   g_doubleEntry = false;
    sch::reset();
    std::vector<int> got(n, -1);
    std::vector<const Obj*> addr(n, nullptr);
@@ -170,13 +221,17 @@ static std::string runSingleton(int n, const std::vector<int>& sched) {
    for (int i = 0; i < n; ++i)
       ws.emplace_back([&, i] {
          sch::tid = i;
-         const Obj& o = Obj::instance();
+         const Obj& o = sigs.empty() ? Obj::instance() : instanceBySig(sigs[i % sigs.size()]);
          addr[i] = &o;
-         got[i] = o.serial;
+         // two threads were seen inside the locked part / a second object exists: the object may be gone already
+         got[i] = (g_doubleEntry.load() || g_built.load() > 1) ? serialOfAddr(&o) : o.serial;
          sch::markDone(i);
       });
    for (int i = 0; i < n; ++i) sch::waitArrive(i);
    int holder = -1;
+   int pending = -1;          // thread released into lock() while the mutex was held (mixed signatures only)
+   int twoInside = -1;        // ... and it came out of lock() although another thread was inside
+   int twoInsideHolder = -1;
    bool conflict = false;
    auto chk = [&] {   // store into the cell enabled together with the unlocked first read of another thread
       bool st = false, r1 = false;
@@ -192,12 +247,20 @@ static std::string runSingleton(int n, const std::vector<int>& sched) {
       if (t < 0 || t >= n || sch::done(t)) ev = "-";
       else {
          std::string a = sch::at(t);
-         if (a == "lock" && holder >= 0) ev = "blocked";
+         if (t == pending) {
+            // sits in lock() (or, once the holder has unlocked, at read2 with the mutex)
+            if (holder >= 0) ev = "blocked";
+            else { sch::waitArrive(t); ev = "lock"; holder = t; pending = -1; }
+         } else if (a == "lock" && holder >= 0) {
+            if (sigs.empty() || pending >= 0 || twoInside >= 0) ev = "blocked";
+            else if (sch::releaseExpectBlocked(t, PROBE_MS)) { ev = "blocked"; pending = t; }
+            else { ev = "lock"; twoInside = t; twoInsideHolder = holder; g_doubleEntry = true; }      // the real mutex did not exclude: two threads in the locked part
+         } else if (a == "lock" && pending >= 0) ev = "reserved";
          else {
             ev = a;
             sch::grant(t);
             if (a == "lock") holder = t;
-            if (a == "unlock") holder = -1;
+            if (a == "unlock" && holder == t) holder = -1;
          }
       }
       trace.push_back(std::to_string(t) + ":" + ev);
@@ -221,20 +284,30 @@ static std::string runSingleton(int n, const std::vector<int>& sched) {
    for (int i = 0; i < n; ++i) if (addr[i] != addr[0] || got[i] != got[0]) sameEnd = false;
    std::string res = "trace=" + joinStr(trace) + " built=" + std::to_string(built) + " ids=" + joinStr(ids) +
                      " conflict=" + (conflict ? "1" : "0");
+   if (twoInside >= 0)
+      res = "thread " + std::to_string(twoInside) + " (" + sigName(sigs[twoInside % sigs.size()]) + ") entered the locked part of "
+            "instance() while thread " + std::to_string(twoInsideHolder) + " (" + sigName(sigs[twoInsideHolder % sigs.size()]) +
+            ") was inside; after all threads returned: built=" + std::to_string(builtEnd) + " same=" + (sameEnd ? "1" : "0") + " " + res;
    if (built > 1 || !same) return "!! constructed more than once or different objects handed out: " + res;
+   if (twoInside >= 0) return "!! two threads inside the locked scope of instance() at once: " + res;
    if (n > 0 && (builtEnd != 1 || !sameEnd))
       return "!! after all threads returned: built=" + std::to_string(builtEnd) + " same=" + (sameEnd ? "1" : "0") + " " + res;
    return "ok " + res;
 }
 
 /// the mutex really excludes: thread 0 inside the locked scope, thread 1 released into lock() must not arrive
-static std::string probeLock() {
+/// `sigs` given: the two threads use these call signatures (two instantiations of instance< Args...>(), one mutex)
+static std::string probeLock(const std::vector<int>& sigs = {}) {
    Obj::reset();
    g_built = 0;
    sch::reset();
    std::vector<std::thread> ws;
    for (int i = 0; i < 2; ++i)
-      ws.emplace_back([i] { sch::tid = i; (void) Obj::instance(); sch::markDone(i); });
+      ws.emplace_back([i, &sigs] {
+         sch::tid = i;
+         if (sigs.empty()) (void) Obj::instance(); else (void) instanceBySig(sigs[i % sigs.size()]);
+         sch::markDone(i);
+      });
    for (int i = 0; i < 2; ++i) sch::waitArrive(i);
    std::string res = "ok excluded";
    sch::grant(0);                       // read1 -> lock
@@ -393,10 +466,12 @@ int main() {
       if (t.size() == 2 && t[0] == "case") return "ok";
       if (t.size() < 2 || t[0] != "conc") return "bad-op";
       std::vector<int> sched;
-      if (t[1] == "singleton" && t.size() == 4) {
+      if (t[1] == "singleton" && (t.size() == 4 || t.size() == 5)) {
          int n = std::atoi(t[2].c_str());
          if (n < 0 || n > sch::MAXT || !parseSched(t[3], sched)) return "bad-op";
-         return runSingleton(n, sched);
+         std::vector<int> sigs;
+         if (t.size() == 5 && !parseSigs(t[4], sigs)) return "bad-op";
+         return runSingleton(n, sched, sigs);
       }
       if (t[1] == "managed" && t.size() == 4) {
          int nobs = std::atoi(t[2].c_str());
@@ -404,8 +479,15 @@ int main() {
          return runManaged(nobs, sched);
       }
       if (t[1] == "probe-lock" && t.size() == 2) return probeLock();
+      if (t[1] == "probe-lock" && t.size() == 3) {
+         std::vector<int> sigs;
+         if (!parseSigs(t[2], sigs)) return "bad-op";
+         return probeLock(sigs);
+      }
       if (t[1] == "soak") {
-         for (char c : line) if (!(std::isalnum(static_cast<unsigned char>(c)) || c == ' ' || c == '-')) return "bad-op";
+         for (char c : line) if (!(std::isalnum(static_cast<unsigned char>(c)) || c == ' ' || c == '-' || c == '=' || c == ',')) return "bad-op";
+         std::vector<int> sigs;
+         if (t.size() == 6 && (t[2] != "singleton" || !parseSigs(t[5], sigs))) return "bad-op";
          return runSoak(line);
       }
       return "bad-op";
@@ -418,8 +500,12 @@ int main() {
 /// waiting loops sleep instead of spinning: 16 spinning threads under TSan starve a loaded machine
 static inline void nap() { std::this_thread::sleep_for(std::chrono::microseconds(20)); }
 
-static std::string soakSingleton(int nthreads, int rounds) {
+/// `sigs` given: thread i requests the object through call signature sigs[i mod length] (mixed instantiations of the member
+/// template instance< Args...>(); seeded/C20-4: a function-local static mutex is one mutex PER instantiation) and the
+/// constructor takes 300 us, so that the other threads arrive while the first one is still inside the locked part
+static std::string soakSingleton(int nthreads, int rounds, const std::vector<int>& sigs = {}) {
    bool okBuilt = true, okSame = true;
+   g_ctorDelayUs.store(sigs.empty() ? 0 : 300, std::memory_order_relaxed);
    for (int r = 0; r < rounds; ++r) {
       Obj::reset();
       g_built.store(0, std::memory_order_relaxed);
@@ -435,7 +521,7 @@ static std::string soakSingleton(int nthreads, int rounds) {
             // the last thread is late on purpose: it arrives when the object exists and takes the fast path
             if (i == nthreads - 1 && nthreads > 1 && (r % 2) == 0)
                while (finished.load(std::memory_order_relaxed) == 0) nap();
-            const Obj& o = Obj::instance();
+            const Obj& o = sigs.empty() ? Obj::instance() : instanceBySig(sigs[i % sigs.size()]);
             addr[i] = &o;
             got[i] = o.serial;
             finished.fetch_add(1, std::memory_order_relaxed);
@@ -446,6 +532,7 @@ static std::string soakSingleton(int nthreads, int rounds) {
       if (g_built.load() != 1) okBuilt = false;
       for (int i = 0; i < nthreads; ++i) if (addr[i] != addr[0] || got[i] != 0) okSame = false;
    }
+   g_ctorDelayUs.store(0, std::memory_order_relaxed);
    std::string res = "soak singleton threads=" + std::to_string(nthreads) + " rounds=" + std::to_string(rounds) +
                      " built=" + (okBuilt ? "1" : "X") + " same=" + (okSame ? "1" : "0");
    return ((okBuilt && okSame) ? "ok " : "!! ") + res;
@@ -486,10 +573,12 @@ static std::string soakManaged(int nobservers, int rounds) {
 int main() {
    return vh::run([&](const std::vector<std::string>& t, const std::string&) -> std::string {
       if (t.size() == 2 && t[0] == "case") return "ok";
-      if (t.size() == 5 && t[0] == "conc" && t[1] == "soak") {
+      if ((t.size() == 5 || t.size() == 6) && t[0] == "conc" && t[1] == "soak") {
          int n = std::atoi(t[3].c_str()), r = std::atoi(t[4].c_str());
          if (n < 1 || n > 64 || r < 1 || r > 100000) return "bad-op";
-         if (t[2] == "singleton") return soakSingleton(n, r);
+         std::vector<int> sigs;
+         if (t.size() == 6 && (t[2] != "singleton" || !parseSigs(t[5], sigs))) return "bad-op";
+         if (t[2] == "singleton") return soakSingleton(n, r, sigs);
          if (t[2] == "managed") return soakManaged(n, r);
       }
       return "bad-op";
